@@ -22,6 +22,7 @@ type Obligation struct {
 	vc     *VC
 	Result SolverResult
 	Cover  bool // vacuity cover: expected sat/unknown
+	Static bool // decided syntactically (no SMT query)
 }
 
 type State struct {
@@ -380,7 +381,7 @@ func isGhostName(n string) bool { return strings.HasPrefix(n, "ghost$") || strin
 func (vc *VC) havocHeap(st *State, why string) {
 	names := vc.sortedUniverse()
 	for _, n := range names {
-		if isGhostName(n) || strings.HasPrefix(n, "const$") {
+		if isGhostName(n) || strings.HasPrefix(n, "const$") || vc.prog.stableHeap[n] {
 			continue
 		}
 		st.heap[n] = vc.fresh(n, vc.universe[n])
@@ -685,6 +686,9 @@ const preamble = `(set-option :produce-models true)
 `
 
 func (o *Obligation) Query() string {
+	if o.Static || o.vc == nil {
+		return "; decided without an SMT query: " + o.Src + "\n"
+	}
 	var b strings.Builder
 	b.WriteString(preamble)
 	for _, c := range o.vc.cmds[:o.NCmds] {
